@@ -27,6 +27,7 @@ type c07Case struct {
 	Input  string `json:"input"`
 	Var    string `json:"var"`    // JSON of the registered variable $rv ("" = none)
 	Shared bool   `json:"shared"` // build the input with shared sub-structures
+	Typed  bool   `json:"typed,omitempty"` // homogeneous arrays are []string / []float64 / []int
 }
 
 // toGoShared converts a value to Go data; with share, equal containers are
@@ -42,7 +43,9 @@ func toGoShared(v val.Value, share bool, memo map[string]interface{}) interface{
 			}
 		}
 		var out interface{}
-		if v.K == val.Arr {
+		if ts := typedSlice(v); c07Typed && ts != nil {
+			out = ts
+		} else if v.K == val.Arr {
 			s := make([]interface{}, len(v.A))
 			for i, e := range v.A {
 				s[i] = toGoShared(e, share, memo)
@@ -61,6 +64,44 @@ func toGoShared(v val.Value, share bool, memo map[string]interface{}) interface{
 		return out
 	}
 	return val.ToGo(v)
+}
+
+// c07Typed (set per case by c07Run): homogeneous arrays of the caller's data
+// are Go slices of a concrete element type ([]string, []float64, []int), as a
+// Go program would naturally hold them, instead of []interface{}.
+var c07Typed bool
+
+func typedSlice(v val.Value) interface{} {
+	if v.K != val.Arr || len(v.A) < 2 {
+		return nil
+	}
+	allS, allN, allI := true, true, true
+	for _, e := range v.A {
+		allS = allS && e.K == val.Str
+		allN = allN && e.K == val.Num
+		allI = allI && e.K == val.Num && e.N == float64(int(e.N))
+	}
+	switch {
+	case allS:
+		out := make([]string, len(v.A))
+		for i, e := range v.A {
+			out[i] = e.S
+		}
+		return out
+	case allI && len(v.A)%2 == 1:
+		out := make([]int, len(v.A))
+		for i, e := range v.A {
+			out[i] = int(e.N)
+		}
+		return out
+	case allN:
+		out := make([]float64, len(v.A))
+		for i, e := range v.A {
+			out[i] = e.N
+		}
+		return out
+	}
+	return nil
 }
 
 type snapshot struct {
@@ -138,6 +179,8 @@ func c07Run(c c07Case) (msg string, outcome string) {
 	if o != nil {
 		return "", o.Kind
 	}
+	c07Typed = c.Typed
+	defer func() { c07Typed = false }()
 	var input interface{}
 	if c.Input != "" {
 		v, err := val.ParseJSON(c.Input)
@@ -341,7 +384,7 @@ func c07Property(t *testing.T, rec *stats.Recorder, progs *rapid.Generator[*ast.
 	rapidRun(t, rec, quick, thorough, func(rt *rapid.T) {
 		prog := ast.Normalize(progs.Draw(rt, "prog"))
 		doc := docs.Draw(rt, "doc")
-		c := c07Case{Text: ast.Print(prog), Input: val.JSON(doc), Shared: rapid.Bool().Draw(rt, "shared")}
+		c := c07Case{Text: ast.Print(prog), Input: val.JSON(doc), Shared: rapid.Bool().Draw(rt, "shared"), Typed: rapid.IntRange(0, 3).Draw(rt, "typed") == 0}
 		hasVar := strings.Contains(c.Text, "$rv")
 		var rv val.Value
 		if hasVar || rapid.IntRange(0, 3).Draw(rt, "withVar") == 0 {
